@@ -38,6 +38,9 @@ func runC05(p *core.Program, r *core.Report) {
 	// R8: "independent of what else is generated": which packages count as local does not depend on the order of the
 	// entrypoints (C04.R2: the root-module and direct-package sets are complete before the first package is registered)
 	chainRules(p, r, "R8", "C04", []string{"C04.R2"}, "the sets that decide what is local are complete before any package is registered")
+	// R9: "a fresh import table per file": a snippet value a generator keeps across packages resolves its names against
+	// the writer that renders it every time - no Frag/IsNil method remembers what an earlier rendering resolved (C03.R8)
+	chainRules(p, r, "R9", "C03", []string{"C03.R8"}, "snippets remember nothing a previous rendering resolved")
 }
 
 // genLoop finds the loop over the variadic generators parameter in the per-package function.
